@@ -77,6 +77,7 @@ struct C20 : vr::Driver {
   std::string describe(size_t i) override { return cfgs[i].name + ", preemption bound " + std::to_string(cfgs[i].pb); }
   std::string klass(size_t) override { return "log"; }
   double scenarioTimeoutSec() override { return 3000; }
+  bool tieBreakNondeterminism() override { return true; }
   double deadlineSec(const std::string& tier) override { return tier == "quick" ? 200 : 1500; }
 
   static std::string lineOf(int p, int m, size_t size) {
@@ -262,6 +263,7 @@ struct C20 : vr::Driver {
     r.counters["states"] += (long long)st.outcomes.size();
     r.counters["transitions"] += (long long)st.schedules;
     r.counters["schedules"] += (long long)st.schedules;
+    r.counters["nd_schedules_re_executed_after_divergence_or_timeout"] += (long long)st.retries;
     r.counters["max_trace_points"] = std::max<long long>(r.counters["max_trace_points"], (long long)st.maxTrace);
     r.counters["configs_bound_completed"] += done ? 1 : 0;
     r.counters["configs_capped"] += done ? 0 : 1;
